@@ -437,6 +437,7 @@ class NameConverter(ast.NodeTransformer):
     ):
         self.dyn_mangled = dyn_mangled
         self.in_comp_iter = 0
+        self.scopes = []
         self.analysis = anal
         # One or several names (e.g. both `recurse` and the function's own name)
         self.recurse_syms = (
@@ -469,6 +470,45 @@ class NameConverter(ast.NodeTransformer):
         else:
             return node
 
+    def _scoped(kind, inner_fields):
+        # Only `inner_fields` belong to the new scope: defaults, decorators,
+        # base classes etc. are evaluated in the enclosing one
+        def visit(self, node):
+            for field, value in ast.iter_fields(node):
+                inner = field in inner_fields
+                if inner:
+                    self.scopes.append(kind)
+                try:
+                    if isinstance(value, list):
+                        value[:] = [
+                            self.visit(v) if isinstance(v, ast.AST) else v
+                            for v in value
+                        ]
+                    elif isinstance(value, ast.AST):
+                        setattr(node, field, self.visit(value))
+                finally:
+                    if inner:
+                        self.scopes.pop()
+            return node
+
+        return visit
+
+    visit_ClassDef = _scoped("class", ("body",))
+    visit_FunctionDef = visit_AsyncFunctionDef = _scoped("func", ("body",))
+    visit_Lambda = _scoped("func", ("body",))
+    visit_ListComp = visit_SetComp = visit_GeneratorExp = _scoped(
+        "comp", ("elt", "generators")
+    )
+    visit_DictComp = _scoped("comp", ("key", "value", "generators"))
+
+    def _in_class_body_comp(self):
+        # Assignment expressions are not allowed either in a comprehension
+        # that sits directly in a class body
+        for kind in reversed(self.scopes):
+            if kind != "comp":
+                return kind == "class" and self.scopes[-1] == "comp"
+        return False
+
     def visit_comprehension(self, node):
         # Assignment expressions are not allowed in a comprehension iterable
         self.in_comp_iter += 1
@@ -489,6 +529,7 @@ class NameConverter(ast.NodeTransformer):
 
         if (
             self.in_comp_iter
+            or self._in_class_body_comp()
             or any(isinstance(arg, ast.Starred) for arg in node.args)
             or node.keywords
         ):
